@@ -78,6 +78,11 @@ func (evpool *Pool) verify(evidence types.Evidence) error {
 				latestHeight := evpool.blockStore.Height()
 				trustedHeader, err = getSignedHeader(evpool.blockStore, latestHeight)
 				if err != nil {
+					// the canonical commit for the latest block is only stored together with the next
+					// block, hence the latest header that can be loaded with its commit is the one before
+					trustedHeader, err = getSignedHeader(evpool.blockStore, latestHeight-1)
+				}
+				if err != nil {
 					return err
 				}
 				if trustedHeader.Time.Before(ev.ConflictingBlock.Time) {
